@@ -30,7 +30,12 @@ CONFIGS = {
     'oracle': ('oracle', 'on'),
     'serde': ('serde', 'on'),
     'full-nodebug': ('oracle,serde', 'off'),
+    # calendar functions on every residue class of the 400-year cycle (thorough tier of C10 / C11): facts of 'full',
+    # E1 restricted to the class tasks
+    'full-calendar': ('oracle,serde', 'on'),
 }
+FACTS_OF = {'full-calendar': 'full'}
+ONLY = {'full-calendar': 'calendar:all'}
 QUICK = ['full']
 THOROUGH = ['full', 'none', 'oracle', 'serde', 'full-nodebug']
 
@@ -98,9 +103,9 @@ def ensure(cfg='full', need_e1=True, log=sys.stderr):
     os.makedirs(d, exist_ok=True)
     prune_old(key)
     feats, da = CONFIGS[cfg]
-    facts = os.path.join(d, f'facts-{cfg}.json')
+    facts = os.path.join(d, f'facts-{FACTS_OF.get(cfg, cfg)}.json')
     e1 = os.path.join(d, f'e1-{cfg}-{e1_key()}.json')
-    lock = open(os.path.join(d, f'.lock-{cfg}'), 'w')
+    lock = open(os.path.join(d, f'.lock-{FACTS_OF.get(cfg, cfg)}'), 'w')
     fcntl.flock(lock, fcntl.LOCK_EX)
     try:
         if not os.path.exists(facts):
@@ -113,7 +118,8 @@ def ensure(cfg='full', need_e1=True, log=sys.stderr):
             print(f"[pipeline] extracted facts ({cfg}) in {time.time()-t0:.1f}s", file=log)
         if need_e1 and not os.path.exists(e1):
             t0 = time.time()
-            r = subprocess.run([sys.executable, '-m', 'sda.analyze', facts, e1], capture_output=True, text=True, cwd=VERIF)
+            cmd = [sys.executable, '-m', 'sda.analyze', facts, e1] + (['--only', ONLY[cfg]] if cfg in ONLY else [])
+            r = subprocess.run(cmd, capture_output=True, text=True, cwd=VERIF)
             if r.returncode != 0 or not os.path.exists(e1):
                 raise AnalysisIncomplete('E1 analysis failed: ' + (r.stdout + r.stderr)[-2000:])
             print(f"[pipeline] E1 analysis ({cfg}) in {time.time()-t0:.1f}s", file=log)
